@@ -53,7 +53,7 @@ T = {
             'exploration', '4/C09',
             'Every non-empty key subset of widths 1..3 (width 4 in thorough) x insertion orders; hostile key shapes up to width 1011 / 2000 keys / 400 nested forks; '
             '7 value kinds, 6 key forms; parsed pairs, ascending order, order independence, empty map = no cell; unfit keys refused and map unchanged.',
-            'R4 decoder written from hashmap.tlb; fork nesting <= 400 (recursion limit beyond)'),
+            'R4 decoder written from hashmap.tlb; nesting beyond ~490 forks hits the recorded recursion-limit finding'),
     'C10': ('reference-model monitor: canonical Patricia-tree encoder (R4, dict.cpp label rule) vs library hash; any-label/pruned/augmented reference trees fed to '
             'every parser entry point',
             'exploration', '4/C10',
@@ -124,6 +124,29 @@ T = {
 }
 
 
+# additions of the last rounds (DESIGN 8.4 "seventh round", 8.6, 8.7), appended to the texts above
+EXTRA = {
+    'C01': ' Later: bit arrays of little-endian storage order, bits handed out by load_bits, copy/deepcopy/pickle routes, second-order derivations of every product, recomputed representation hash of ordinary cells over exotic children.',
+    'C03': ' Later: the raw bytes in bytearray / memoryview / array containers.',
+    'C05': ' Later: every rejection also through Slice / Builder entry points and Boc(data).deserialize(cls) for each class.',
+    'C06': ' Later: snake chains up to 130 048 bytes, wide-item buffers, texts outside the Unicode normal forms.',
+    'C07': ' Later: bits as iterators / generators / spaced bit strings, bytes-like objects with items wider than a byte (fits / one item too many) at every fill level.',
+    'C08': ' Later: looking is not using (repr, str, hash, ==, copy / pickle protocols), the public Cell / Slice constructors over the cell\'s and the caller\'s own arrays.',
+    'C09': ' Later: keys entering through map_ / .map, anycast Address keys, combs nesting 450 / 600 / 1000 forks under the default recursion limit (recorded finding above ~490).',
+    'C10': ' Later: trees nesting 450 / 600 / 1000 forks under the default recursion limit (recorded finding above ~490).',
+    'C11': ' Later: forgeries of the proof cell itself (all 16 depth bits, length, reference count), pruned masks without slots, roots of account proofs that are not Merkle proofs, proofs through copy / pickle.',
+    'C12': ' Later: validator set as tuple / generator / iterator / map / dict view; block id used before the check.',
+    'C13': ' Later: out-of-domain addresses built and rendered between the valid round trips.',
+    'C14': ' Later: id-like bytes where they must stay bytes, bytes-like field values, damaged parses and a storm of failing nested payloads between valid calls on one schemas object.',
+    'C15': ' Later: exotic bodies, NFT data from address text, highload wallet data with queries, damaged parses before valid ones.',
+    'C16': ' Later: damaged versions of each cell parsed before the valid one.',
+    'C17': ' Later: re-serialisation of everything parsed, VmStackList directly, keyword order of continuations, failed-then-repaired serialisation, tuples / nesting / stacks up to 1000 (recorded finding above ~490 levels).',
+    'C18': ' Later: inputs built around every 2..8-byte constant of the library source; valid calls right after calls with invalid arguments.',
+    'C19': ' Later: leafless ladders ending in library / Merkle cells, equal DAGs made of distinct objects.',
+    'C20': ' Later: the generator under a steered entropy source (rare digest contents, a run of 1500 rejected draws), word counts other than 24 (recorded finding).',
+}
+
+
 def main():
     checks = []
     for pid in sorted(T):
@@ -137,7 +160,7 @@ def main():
             'evidence_file': f'/verif/evidence/{pid}.json',
             'replay_cmd_template': f'{PY} run.py {pid} --replay {{path}}',
             'engine': 'pymon',
-            'level_claimed': {'category': cat, 'text': text, 'design_ref': f'DESIGN.md section {ref} (plan) and section 8.4 (as built)'},
+            'level_claimed': {'category': cat, 'text': text + EXTRA.get(pid, ''), 'design_ref': f'DESIGN.md section {ref} (plan) and section 8.4 (as built)'},
             'level_note': note,
             'technique': 'runtime monitoring: ' + tech,
         })
@@ -160,7 +183,8 @@ def main():
                                        'and shadow-model oracles, sys.monitoring step counter) driving the real library'}],
         'checks': checks,
         'notes': 'Verdicts are three-valued: exit 0 held on what was observed, 1 violation (VIOLATION line + replay file), '
-                 '2 inconclusive (monitor not reached / coverage floor missed). known_findings.txt lists recorded and fixed defects.',
+                 '2 inconclusive (monitor not reached / coverage floor missed). known_findings.txt lists recorded and fixed defects. '
+                 'selftest.py applies mutants/ and seeded/ (deliberate breaks: each must be caught) and, with --neutral, neutral/ (behaviour-preserving changes: all twenty checks must stay quiet).',
         'not_applicable': na,
     }
     with open(os.path.join(HERE, 'MANIFEST.json'), 'w') as f:
